@@ -34,10 +34,11 @@ from explorerscript.ssb_converting.compiler.compile_handlers.blocks.switches.def
 from explorerscript.ssb_converting.compiler.compile_handlers.blocks.switches.switch_header import (
     SwitchHeaderCompileHandler,
 )
-from explorerscript.ssb_converting.compiler.utils import CompilerCtx, SsbLabelJumpBlueprint
+from explorerscript.ssb_converting.compiler.utils import CompilerCtx, SsbLabelJumpBlueprint, does_op_end_control_flow
 from explorerscript.ssb_converting.ssb_data_types import SsbOperation
 from explorerscript.ssb_converting.ssb_special_ops import (
     SsbLabel,
+    SsbLabelJump,
     OP_JUMP,
     OP_SWITCH_SCENARIO,
     OP_CASE_VALUE,
@@ -111,6 +112,7 @@ class SwitchBlockCompileHandler(
                 cases_waiting_for_a_block.append(h)
             else:
                 # 3a. If the case has operations: Collect case sub-block ops
+                h.lone_jump_can_be_folded = not self._falls_through(case_ops)
                 ops = h.collect()
                 start_label = h.get_start_label()
                 assert start_label is not None
@@ -135,6 +137,28 @@ class SwitchBlockCompileHandler(
         for h in self._case_handlers:
             header_ops += h.get_processed_header_jumps()
         return header_ops + [default_start_label] + default_ops + case_ops + [end_label]
+
+    @staticmethod
+    def _falls_through(case_ops: list[SsbOperation]) -> bool:
+        """Whether the control flow can run from the end of the already collected case blocks into the next one."""
+        trailing_labels: list[SsbLabel] = []
+        real_ops: list[SsbOperation] = []
+        for op in case_ops:
+            if isinstance(op, SsbLabel):
+                trailing_labels.append(op)
+            else:
+                trailing_labels = []
+                real_ops.append(op)
+        if len(real_ops) == 0:
+            return len(case_ops) > 0
+        if not does_op_end_control_flow(real_ops[-1], real_ops[-2] if len(real_ops) > 1 else None):
+            return True
+        # The last op ends the control flow, but something may jump to a label behind it.
+        return any(
+            label.original_name is not None
+            or any(isinstance(op, SsbLabelJump) and op.label == label for op in real_ops)
+            for label in trailing_labels
+        )
 
     def add(self, obj: _SupportedHandlers) -> None:
         if isinstance(obj, CaseBlockCompileHandler):
